@@ -211,11 +211,19 @@ def can_reach(view, start_bb, target_blocks, avoid=()):
 
 
 def ret_variants(view):
-    """For functions returning Result: classify each return-reaching assignment to _0."""
+    """(block, expr) for every value that can flow into the return place (phi locals are
+    expanded to their definitions, so the block is where the value is chosen)."""
     out = []
+
+    def expand(i, e, depth=0):
+        if e[0] == 'phi' and depth < 4:
+            for bb, de in view.phi_defs(e[1]):
+                expand(bb, de, depth + 1)
+        else:
+            out.append((i, e))
     for (i, j, s) in view.stmts():
         if s['k'] == 'assign' and s['lhs']['l'] == 0 and not s['lhs']['p']:
-            out.append((i, view.rvalue_expr(s['rv'], i)))
+            expand(i, view.rvalue_expr(s['rv'], i))
     for cs in view.calls():
         if cs.dest['l'] == 0 and not cs.dest['p']:
             out.append((cs.bb, ('call', cs.nfn, tuple(cs.arg(i) for i in range(len(cs.args))), cs.bb)))
@@ -280,3 +288,24 @@ def requires(ctx, view, bb, reqs, key, what, loc=None):
                detail=None if ok else 'dominating guards here: ' + ' ; '.join(guard_strs(view, bb)))
         ok_all = ok_all and ok
     return ok_all
+
+
+def closure_hosts(parent, closure_view):
+    """Call sites in `parent` that receive the closure `closure_view` as an argument."""
+    tag = norm(closure_view.path)
+    out = []
+    for cs in parent.calls(skip_log=True):
+        for i in range(len(cs.args)):
+            e = cs.arg(i)
+            if any(x[0] == 'agg' and x[1] == '(closure)' and norm(x[2]) == tag for x in subexprs(e)):
+                out.append(cs)
+                break
+    return out
+
+
+def parent_view(F, view):
+    p = view.f.get('parent')
+    if not p:
+        return None
+    c = [F.view(k) for k, f in F.fns.items() if f['path'] == p]
+    return c[0] if c else None
